@@ -227,3 +227,89 @@ def extract_returns_tree(root: str) -> dict:
             stats["modules"] += 1
             stats["returns_rewritten"] += tr.count
     return stats
+
+
+def param_rename_tree(root: str) -> dict:
+    """Fourth behaviour-preserving rewrite: the positional parameters of every private function (underscore name, not a
+    dunder), private method and nested function are renamed (`box` -> `box_q`), together with their uses in the function and
+    its closures.  A parameter is left alone when some call of the package passes a keyword of that name, when it is `self` /
+    `cls`, keyword-only, or when a nested scope binds the same name.  Public signatures are untouched."""
+    base = os.path.join(root, "src", "onnx_ir")
+    files = []
+    for dp, _dn, fns in os.walk(base):
+        if "_thirdparty" in dp:
+            continue
+        for fn in fns:
+            if fn.endswith(".py") and not fn.endswith("_test.py"):
+                files.append(os.path.join(dp, fn))
+    trees = {}
+    kw: set[str] = set()
+    for dp, _dn, fns in os.walk(base):
+        for fn in fns:
+            if fn.endswith("_test.py"):  # the tests are not rewritten, but the keywords they pass must keep working
+                with open(os.path.join(dp, fn), encoding="utf-8") as fh:
+                    for n in ast.walk(ast.parse(fh.read())):
+                        if isinstance(n, ast.Call):
+                            kw.update(k.arg for k in n.keywords if k.arg)
+    for path in files:
+        with open(path, encoding="utf-8") as fh:
+            trees[path] = ast.parse(fh.read())
+        for n in ast.walk(trees[path]):
+            if isinstance(n, ast.Call):
+                kw.update(k.arg for k in n.keywords if k.arg)
+            elif isinstance(n, ast.Constant) and isinstance(n.value, str) and n.value.isidentifier():
+                kw.add(n.value)  # names used reflectively (getattr, **{...})
+    stats = {"modules": 0, "parameters_renamed": 0}
+    for path, tree in trees.items():
+        def visit(node, nested):
+            for c in ast.iter_child_nodes(node):
+                if isinstance(c, (ast.FunctionDef, ast.AsyncFunctionDef)):
+                    private = c.name.startswith("_") and not (c.name.startswith("__") and c.name.endswith("__"))
+                    if (private or nested) and not c.decorator_list:
+                        stats["parameters_renamed"] += _rename_params(c, kw)
+                    visit(c, True)
+                elif isinstance(c, ast.ClassDef):
+                    visit(c, False)
+                else:
+                    visit(c, nested)
+
+        visit(tree, False)
+        ast.fix_missing_locations(tree)
+        new = ast.unparse(tree) + "\n"
+        compile(new, path, "exec")
+        with open(path, "w", encoding="utf-8") as fh:
+            fh.write(new)
+        stats["modules"] += 1
+    return stats
+
+
+def _rename_params(fn, kw: set[str]) -> int:
+    a = fn.args
+    params = [x for x in a.posonlyargs + a.args if x.arg not in ("self", "cls")]
+    all_names = {x.id for x in ast.walk(fn) if isinstance(x, ast.Name)} | {x.arg for x in ast.walk(fn) if isinstance(x, ast.arg)}
+    # names bound again in a nested scope (its own parameters or locals): leave alone
+    rebound: set[str] = set()
+    for c in ast.walk(fn):
+        if c is fn or not isinstance(c, (ast.FunctionDef, ast.AsyncFunctionDef, ast.Lambda, ast.ListComp, ast.SetComp, ast.DictComp, ast.GeneratorExp)):
+            continue
+        for x in ast.walk(c):
+            if isinstance(x, ast.arg):
+                rebound.add(x.arg)
+            elif isinstance(x, ast.Name) and isinstance(x.ctx, (ast.Store, ast.Del)):
+                rebound.add(x.id)
+            elif isinstance(x, (ast.Global, ast.Nonlocal)):
+                rebound.update(x.names)
+    names = {}
+    for p in params:
+        new = p.arg + "_q"
+        if p.arg in kw or p.arg in rebound or new in all_names:
+            continue
+        names[p.arg] = new
+    if not names:
+        return 0
+    for x in ast.walk(fn):
+        if isinstance(x, ast.Name) and x.id in names:
+            x.id = names[x.id]
+        elif isinstance(x, ast.arg) and x.arg in names and x in params:
+            x.arg = names[x.arg]
+    return len(names)
